@@ -133,7 +133,7 @@ def r1(ctx) -> None:
     ctx.ob("C02-R1", "calculate_dataset_matrices/all-datasets", ok, cdm, loops[0] if loops else cdm.node, "a matrix is computed for every dataset model")
 
 
-def r2(ctx) -> None:
+def r2(ctx, rule: str = "C02-R2") -> None:
     repo = ctx.repo
     # megacomplex scale
     cdm = ctx.fn(MAT, "MatrixProvider.calculate_dataset_matrix")
@@ -147,30 +147,30 @@ def r2(ctx) -> None:
             if isinstance(a, ast.If):
                 g = a
                 break
-    ctx.ob("C02-R2", "calculate_dataset_matrix/megacomplex-scale", ok and g is not None and norm(g.test) == "scale is not None", cdm,
+    ctx.ob(rule, "calculate_dataset_matrix/megacomplex-scale", ok and g is not None and norm(g.test) == "scale is not None", cdm,
            scs[0] if scs else cdm.node, "each megacomplex matrix is multiplied by its megacomplex scale exactly once when a scale is given",
            construct=lib.short(g, 70) if g is not None else "def")
     combs = [c for c in lib.calls(cdm) if norm(c.func).endswith("combine_megacomplex_matrices")]
     uses = [s for t, s in lib.stores(cdm) if isinstance(s, ast.Assign) and norm(s.value) == "this_matrix"]
     for u in [lib.stmt_of(c) for c in combs] + uses:
         if scs:
-            ctx.ob("C02-R2", f"calculate_dataset_matrix/scale-before-combine:{lib.short(u, 30)}", cfg.dominates(g, u) and g.lineno < u.lineno, cdm, u,
+            ctx.ob(rule, f"calculate_dataset_matrix/scale-before-combine:{lib.short(u, 30)}", cfg.dominates(g, u) and g.lineno < u.lineno, cdm, u,
                    "the megacomplex scale is applied before the matrix is combined with the others")
     loop = next(iter(lib.nodes(cdm, ast.For)), None)
     ok = loop is not None and isinstance(loop.target, ast.Tuple) and [norm(x) for x in loop.target.elts] == ["scale", "megacomplex"] and norm(loop.iter) == "megacomplex_iterator"
-    ctx.ob("C02-R2", "calculate_dataset_matrix/scale-of-same-megacomplex", ok, cdm, loop or cdm.node,
+    ctx.ob(rule, "calculate_dataset_matrix/scale-of-same-megacomplex", ok, cdm, loop or cdm.node,
            "scale and megacomplex come as pairs from the dataset model iterator")
     for name, coll, scl in (("iterate_dataset_model_megacomplexes", "megacomplex", "megacomplex_scale"),
                             ("iterate_dataset_model_global_megacomplexes", "global_megacomplex", "global_megacomplex_scale")):
         f = ctx.fn(DSM, name)
         lp = next(iter(lib.nodes(f, ast.For)), None)
         okp = lp is not None and norm(lp.iter) == f"enumerate(dataset_model.{coll})" and f"dataset_model.{scl}[i]" in norm(f.node) and "yield (scale, megacomplex)" in norm(f.node)
-        ctx.ob("C02-R2", f"{name}/scale-i-with-megacomplex-i", okp, f, lp or f.node, f"megacomplex i is paired with {scl}[i]")
+        ctx.ob(rule, f"{name}/scale-i-with-megacomplex-i", okp, f, lp or f.node, f"megacomplex i is paired with {scl}[i]")
     # dataset scale, relations, constraints, weight (unlinked)
     cp = ctx.fn(MAT, "MatrixProviderUnlinked.calculate_prepared_matrices")
     flp = lib.flow(cp, repo)
     reds = lib.method_calls(cp, "reduce_matrix")
-    ctx.sites("C02-R2", "reduce_matrix call (unlinked)", len(reds), 1)
+    ctx.sites(rule, "reduce_matrix call (unlinked)", len(reds), 1)
     for c in reds:
         a0 = c.args[0] if c.args else None
         ok = isinstance(a0, ast.Call) and isinstance(a0.func, ast.Attribute) and a0.func.attr == "create_scaled_matrix" \
@@ -181,50 +181,50 @@ def r2(ctx) -> None:
             a = scale_t.single_atom()
             # float(dataset_model.scale or 1) normalises to bool<Or, (dataset_model.scale, 1)>
             want = bool(a and a[0] == "bool" and a[1] == "Or" and "scale" in repr(a[2][0]) and a[2][1] == Poly.const(1).key())
-        ctx.ob("C02-R2", "calculate_prepared_matrices/dataset-scale-then-reduce", ok and bool(want), cp, lib.stmt_of(c),
+        ctx.ob(rule, "calculate_prepared_matrices/dataset-scale-then-reduce", ok and bool(want), cp, lib.stmt_of(c),
                "reduce_matrix receives the dataset matrix scaled once by the dataset scale (1 if none)",
                [f"scale term: {scale_t!r}"] if scale_t is not None else [])
-        ctx.ob("C02-R2", "calculate_prepared_matrices/reduce-on-own-axis", len(c.args) == 2 and norm(c.args[1]) == "self._data_provider.get_global_axis(label)", cp,
+        ctx.ob(rule, "calculate_prepared_matrices/reduce-on-own-axis", len(c.args) == 2 and norm(c.args[1]) == "self._data_provider.get_global_axis(label)", cp,
                lib.stmt_of(c), "constraints and relations are evaluated on the dataset's own global axis")
     ws = lib.method_calls(cp, "create_weighted_matrix")
-    ctx.sites("C02-R2", "weighting (unlinked)", len(ws), 1)
+    ctx.sites(rule, "weighting (unlinked)", len(ws), 1)
     for w in ws:
         st = lib.stmt_of(w)
         ok = bool(reds) and lib.cfg(cp).dominates(lib.stmt_of(reds[0]), st) and norm(w.func.value) == "matrix"
         comp = next((a for a in lib.ancestors(w, cp.node) if isinstance(a, ast.ListComp)), None)
         src_ok = comp is not None and norm(comp.generators[0].iter) == "enumerate(self._prepared_matrix_container[label])"
         gd = next((a for a in lib.ancestors(w, cp.node) if isinstance(a, ast.If)), None)
-        ctx.ob("C02-R2", "calculate_prepared_matrices/weight-after-reduce", ok and src_ok and gd is not None and norm(gd.test) == "weight is not None", cp, st,
+        ctx.ob(rule, "calculate_prepared_matrices/weight-after-reduce", ok and src_ok and gd is not None and norm(gd.test) == "weight is not None", cp, st,
                "the weight is applied last, to the reduced per-index matrices, when the dataset has a weight")
     rm = ctx.fn(MAT, "MatrixProvider.reduce_matrix")
     seq = [(c.func.attr, lib.stmt_of(c)) for c in lib.calls(rm) if isinstance(c.func, ast.Attribute) and c.func.attr in ("apply_relations", "apply_constraints")]
     ok = [x[0] for x in seq] == ["apply_relations", "apply_constraints"] and lib.cfg(rm).dominates(seq[0][1], seq[1][1]) \
         and all(isinstance(s, ast.Assign) and norm(s.targets[0]) == "result" and norm(s.value.args[0]) == "result" for _, s in seq)
-    ctx.ob("C02-R2", "reduce_matrix/relations-then-constraints", ok, rm, seq[0][1] if seq else rm.node,
+    ctx.ob(rule, "reduce_matrix/relations-then-constraints", ok, rm, seq[0][1] if seq else rm.node,
            "relations are applied first, then constraints, each once, on the same list",
            construct=" ; ".join(lib.short(s, 60) for _, s in seq))
     rets = lib.nodes(rm, ast.Return)
-    ctx.ob("C02-R2", "reduce_matrix/returns-reduced", len(rets) == 1 and norm(rets[0].value) == "result", rm, rets[0] if rets else rm.node, "the reduced list is returned")
+    ctx.ob(rule, "reduce_matrix/returns-reduced", len(rets) == 1 and norm(rets[0].value) == "result", rm, rets[0] if rets else rm.node, "the reduced list is returned")
     # linked
     am = ctx.fn(MAT, "MatrixProviderLinked.align_matrices")
     fla = lib.flow(am, repo)
     rets = lib.nodes(am, ast.Return)
-    ctx.sites("C02-R2", "returns of align_matrices", len(rets), 2)
+    ctx.sites(rule, "returns of align_matrices", len(rets), 2)
     for r in rets:
         v = r.value
         t = norm(v).replace(" ", "")
         if isinstance(v, ast.Call) and isinstance(v.func, ast.Attribute) and v.func.attr == "create_scaled_matrix":
             ok = t == "matrices[0].create_scaled_matrix(scales[0])"
-            ctx.ob("C02-R2", "align_matrices/single-matrix-scaled", ok, am, r, "a single matrix is returned scaled by its dataset scale")
+            ctx.ob(rule, "align_matrices/single-matrix-scaled", ok, am, r, "a single matrix is returned scaled by its dataset scale")
         elif isinstance(v, ast.Call) and norm(v.func) == "MatrixContainer":
             sts = [s for tt, s in lib.stores(am) if isinstance(tt, ast.Subscript) and norm(tt.value) == "full_matrix"]
             ok = len(sts) == 1 and norm(sts[0].value).replace(" ", "") in ("m.matrix*scales[i]", "scales[i]*m.matrix")
             lp = next((a for a in lib.ancestors(sts[0], am.node) if isinstance(a, ast.For)), None) if sts else None
             ok = ok and lp is not None and norm(lp.iter) == "enumerate(matrices)" and [norm(x) for x in lp.target.elts] == ["i", "m"]
-            ctx.ob("C02-R2", "align_matrices/stacked-matrices-scaled", ok, am, sts[0] if sts else r,
+            ctx.ob(rule, "align_matrices/stacked-matrices-scaled", ok, am, sts[0] if sts else r,
                    "block i of the stacked matrix is matrix i times scale i")
         else:
-            ctx.ob("C02-R2", "align_matrices/unscaled-return", False, am, r,
+            ctx.ob(rule, "align_matrices/unscaled-return", False, am, r,
                    "every return path of align_matrices must apply the dataset scale (an aligned index holding a single dataset "
                    "is fitted with an unscaled matrix otherwise)")
     cam = ctx.fn(MAT, "MatrixProviderLinked.calculate_aligned_matrices")
@@ -236,12 +236,12 @@ def r2(ctx) -> None:
     ok = all(k in seq for k in ("align_matrices", "reduce_matrix", "create_weighted_matrix")) and \
         cfgc.dominates(lib.stmt_of(seq["align_matrices"]), lib.stmt_of(seq["reduce_matrix"])) and \
         cfgc.dominates(lib.stmt_of(seq["reduce_matrix"]), lib.stmt_of(seq["create_weighted_matrix"]))
-    ctx.ob("C02-R2", "calculate_aligned_matrices/scale-reduce-weight", ok, cam, lib.stmt_of(seq["reduce_matrix"]) if "reduce_matrix" in seq else cam.node,
+    ctx.ob(rule, "calculate_aligned_matrices/scale-reduce-weight", ok, cam, lib.stmt_of(seq["reduce_matrix"]) if "reduce_matrix" in seq else cam.node,
            "linked path: stack and scale (align_matrices) -> relations/constraints (reduce_matrix) -> weight")
     if ok:
         flc = lib.flow(cam, repo)
         c = seq["reduce_matrix"]
-        ctx.ob("C02-R2", "calculate_aligned_matrices/reduce-the-stacked-matrix", norm(c.args[0]) == "group_matrix" and any(
+        ctx.ob(rule, "calculate_aligned_matrices/reduce-the-stacked-matrix", norm(c.args[0]) == "group_matrix" and any(
             d.kind == "assign" and d.value is seq["align_matrices"] for d in flc.reaching("group_matrix", lib.stmt_of(c))), cam, lib.stmt_of(c),
             "reduce_matrix receives the scaled stacked matrix")
         c2 = seq["align_matrices"]
@@ -252,32 +252,32 @@ def r2(ctx) -> None:
             and norm(sc_defs[0].value.generators[0].iter) == "self._data_provider.group_definitions[group_label]" and not sc_defs[0].value.generators[0].ifs
         zips = [z for z in lib.calls(loop) if norm(z.func) == "zip"] if loop is not None else []
         ok_mc = any(z.args and norm(z.args[0]) == "self._data_provider.group_definitions[group_label]" for z in zips)
-        ctx.ob("C02-R2", "calculate_aligned_matrices/scales-of-the-stacked-datasets", ok_sc and ok_mc, cam, sc_defs[0].stmt if sc_defs else cam.node,
+        ctx.ob(rule, "calculate_aligned_matrices/scales-of-the-stacked-datasets", ok_sc and ok_mc, cam, sc_defs[0].stmt if sc_defs else cam.node,
                "for every aligned index the scale list is built over exactly the datasets whose matrices are stacked there "
                "(same group definition, same order); a list built once for the whole group pairs scales with the wrong datasets")
-        ctx.ob("C02-R2", "calculate_aligned_matrices/scales-passed", len(c2.args) == 2 and norm(c2.args[0]) == "matrix_containers" and norm(c2.args[1]) == "matrix_scales",
+        ctx.ob(rule, "calculate_aligned_matrices/scales-passed", len(c2.args) == 2 and norm(c2.args[0]) == "matrix_containers" and norm(c2.args[1]) == "matrix_scales",
                cam, lib.stmt_of(c2), "align_matrices receives the matrices and their dataset scales")
         w = seq["create_weighted_matrix"]
         gd = next((a for a in lib.ancestors(w, cam.node) if isinstance(a, ast.If)), None)
-        ctx.ob("C02-R2", "calculate_aligned_matrices/weight-last", norm(w.func.value) == "group_matrix_single" and gd is not None and norm(gd.test) == "weight is not None"
+        ctx.ob(rule, "calculate_aligned_matrices/weight-last", norm(w.func.value) == "group_matrix_single" and gd is not None and norm(gd.test) == "weight is not None"
                and norm(lib.stmt_of(w).targets[0]) == "group_matrix_single", cam, lib.stmt_of(w), "the aligned weight is applied to the reduced matrix of that index")
         st = [s for t, s in lib.stores(cam) if isinstance(t, ast.Subscript) and norm(t.value) == "self._aligned_matrices"]
-        ctx.ob("C02-R2", "calculate_aligned_matrices/stores-prepared", len(st) == 1 and norm(st[0].value) == "group_matrix_single" and cfgc.dominates(gd, st[0]), cam,
+        ctx.ob(rule, "calculate_aligned_matrices/stores-prepared", len(st) == 1 and norm(st[0].value) == "group_matrix_single" and cfgc.dominates(gd, st[0]), cam,
                st[0] if st else cam.node, "the stored aligned matrix is the scaled, reduced and weighted one")
     # data weighted exactly once
     init = ctx.fn(DAT, "DataProvider.__init__")
     wd = [s for t, s in lib.stores(init) if isinstance(s, ast.AugAssign) and isinstance(s.op, ast.Mult) and norm(t) == "self._data[label]"]
     gd = next((a for a in lib.ancestors(wd[0], init.node) if isinstance(a, ast.If)), None) if wd else None
     ok = len(wd) == 1 and norm(wd[0].value) == "self._weight[label]" and gd is not None and norm(gd.test) == "self._weight[label] is not None"
-    ctx.ob("C02-R2", "DataProvider.__init__/data-weighted-once", ok, init, wd[0] if wd else init.node,
+    ctx.ob(rule, "DataProvider.__init__/data-weighted-once", ok, init, wd[0] if wd else init.node,
            "the data is multiplied by the weight exactly once, when there is a weight")
     if wd:
         mw = [c for c in lib.method_calls(init, "add_model_weight")]
-        ctx.ob("C02-R2", "DataProvider.__init__/model-weight-before-use", bool(mw) and lib.cfg(init).dominates(lib.stmt_of(mw[0]), wd[0]), init,
+        ctx.ob(rule, "DataProvider.__init__/model-weight-before-use", bool(mw) and lib.cfg(init).dominates(lib.stmt_of(mw[0]), wd[0]), init,
                lib.stmt_of(mw[0]) if mw else init.node, "model weights are resolved before the data is weighted")
         fl_i = lib.flow(init, repo)
         fd = [s for t, s in lib.stores(init) if isinstance(t, ast.Subscript) and lib.chain_text(t.value) == "self._flattened_data"]
-        ctx.ob("C02-R2", "DataProvider.__init__/flattened-data-is-weighted", bool(fd) and lib.cfg(init).dominates(gd, fd[0]), init, fd[0] if fd else init.node,
+        ctx.ob(rule, "DataProvider.__init__/flattened-data-is-weighted", bool(fd) and lib.cfg(init).dominates(gd, fd[0]), init, fd[0] if fd else init.node,
                "the flattened (full-model) data is derived from the weighted data")
         _ = fl_i
     n_other = 0
@@ -287,16 +287,16 @@ def r2(ctx) -> None:
         for t, s in lib.stores(fi):
             if isinstance(s, ast.AugAssign) and ("_data" in norm(t) or norm(t) == "data") and isinstance(s.op, (ast.Mult, ast.Div)):
                 n_other += 1
-                ctx.ob("C02-R2", f"{fi.short}/data-weighted-again", False, fi, s, "data is scaled in place a second time")
+                ctx.ob(rule, f"{fi.short}/data-weighted-again", False, fi, s, "data is scaled in place a second time")
     ctx.note(f"C02-R2: {n_other} further in-place scalings of data found")
     ce = ctx.fn(EST, "EstimationProviderUnlinked.calculate_estimation")
     fle = lib.flow(ce, repo)
     ds = [d for d in fle.defs_of("data") if d.kind == "assign"]
-    ctx.ob("C02-R2", "calculate_estimation/fits-weighted-data", len(ds) == 1 and norm(ds[0].value) == "self._data_provider.get_data(label)", ce,
+    ctx.ob(rule, "calculate_estimation/fits-weighted-data", len(ds) == 1 and norm(ds[0].value) == "self._data_provider.get_data(label)", ce,
            ds[0].stmt if ds else ce.node, "the per-index fit uses the provider's (already weighted) data unchanged")
     cs = lib.method_calls(ce, "calculate_residual")
     for c in cs:
-        ctx.ob("C02-R2", "calculate_estimation/fits-prepared-matrix", norm(c.args[0]) == "matrix_container.matrix" and any(
+        ctx.ob(rule, "calculate_estimation/fits-prepared-matrix", norm(c.args[0]) == "matrix_container.matrix" and any(
             d.kind == "assign" and isinstance(d.value, ast.Call) and d.value.func.attr == "get_prepared_matrix_container"
             for d in fle.reaching("matrix_container", lib.stmt_of(c))), ce, lib.stmt_of(c),
             "the per-index fit uses the prepared (scaled, reduced, weighted) matrix")
@@ -307,7 +307,7 @@ def r2(ctx) -> None:
             d.kind == "assign" and isinstance(d.value, ast.Call) and d.value.func.attr == "get_aligned_matrix_container" for d in fll.reaching("matrix_container", lib.stmt_of(c)))
         okd = norm(c.args[1]) == "data" and any(
             d.kind == "assign" and isinstance(d.value, ast.Call) and d.value.func.attr == "get_aligned_data" for d in fll.reaching("data", lib.stmt_of(c)))
-        ctx.ob("C02-R2", "EstimationProviderLinked.estimate/fits-aligned-pair", okm and okd, el, lib.stmt_of(c),
+        ctx.ob(rule, "EstimationProviderLinked.estimate/fits-aligned-pair", okm and okd, el, lib.stmt_of(c),
                "the linked fit pairs the aligned (prepared) matrix with the aligned (weighted) data")
 
 
